@@ -1,5 +1,79 @@
-"""C03.3 tokenizer progress -- filled in with the tokenizer model."""
+"""C03.3 tokenizer progress: tokenization of any finite input terminates.
+
+In the tokenizer model, per atom, the epsilon-graph (arms that give the atom back -- or read nothing -- and switch
+state) must be acyclic; EOF is never consumed, so the EOF-successor graph over all states must be acyclic and end in
+STOP (`return False`).  Every other arm consumes at least one character.
+"""
+from ..repo import AnalysisError
+from ..partition import ATOMS, atom_name
+from .c02 import tokmodel, short
 
 
 def run(ctx):
-    return
+    r = ctx.r
+    tm = tokmodel(ctx)
+    r.rule("C03.3", "tokenizer: per-atom reconsume graph acyclic; EOF chain from every state reaches STOP", floor=130)
+    n_eps = 0
+    for a in ATOMS:
+        edges = {}
+        for s in tm.states:
+            outs = set()
+            for combo in tm.combos(s):
+                arm = tm.arm(s, a, combo)
+                consumes = tm.reads_char(s) and not arm.unget and a is not None and s not in ("bogusCommentState",)
+                if arm.stop:
+                    continue
+                if not consumes:
+                    nxt = arm.next or s
+                    outs.add(nxt)
+            edges[s] = outs
+            n_eps += len(outs)
+        # cycle detection
+        color = {}
+        cyc = []
+
+        def dfs(u, path):
+            color[u] = 1
+            for v in sorted(edges.get(u, ())):
+                if color.get(v) == 1:
+                    cyc.append(path + [u, v])
+                elif v not in color:
+                    dfs(v, path + [u])
+            color[u] = 2
+        for s in tm.states:
+            if s not in color:
+                dfs(s, [])
+        key = "no-progress-cycle[%s]" % atom_name(a)
+        r.check("C03.3", not cyc, key, "_tokenizer.py",
+                "on input %s the tokenizer can cycle through %s without consuming a character: it never terminates"
+                % (atom_name(a), [short(x) for x in (cyc[0] if cyc else [])]),
+                {"cycle": [short(x) for x in (cyc[0] if cyc else [])]},
+                detail={"atom": atom_name(a), "epsilon_edges": sum(len(v) for v in edges.values())})
+    # EOF chain ends in STOP from every state
+    for s in tm.states:
+        seen, cur, ok = set(), {s}, True
+        steps = 0
+        reach_stop = True
+        frontier = {s}
+        visited = set()
+        while frontier:
+            nxt = set()
+            for u in frontier:
+                if u in visited:
+                    continue
+                visited.add(u)
+                for combo in tm.combos(u):
+                    arm = tm.arm(u, None, combo)
+                    if arm.stop:
+                        continue
+                    nxt.add(arm.next or u)
+            frontier = nxt - visited
+            steps += 1
+            if steps > 100:
+                reach_stop = False
+                break
+        # acyclicity on EOF was established above; additionally some state on the chain must STOP
+        stops = any(tm.arm(u, None, combo).stop for u in visited for combo in tm.combos(u))
+        r.check("C03.3", reach_stop and stops, "eof-chain[%s]" % short(s), "_tokenizer.py",
+                "from state %s the end of input never stops tokenization" % short(s), detail={"state": short(s), "chain": len(visited)})
+    r.extra["tokenizer_epsilon_edges"] = n_eps
